@@ -287,6 +287,50 @@ theorem inner_payloads (lu ru : Bool) {L R : List Int} (lxs rxs : List (List Int
   · simp only [orderedMergeInner, Sinks.count, Option.any_none, Bool.false_eq_true, if_false, e1, e2, hm, mapFields, h1, h3]
   · simp only [orderedMergeInner, Sinks.count, Option.any_none, Bool.false_eq_true, if_false, e1, e2, hm, mapFields, h1, h3]
 
+/-- `ordered_merge_inner`, every form of the sinks: the same columns are returned (no sinks), written to Field sinks, or
+    written to zero-initialised ndarray sinks of the join's length (`np.zeros(ordered_inner_map_result_size(...))`). -/
+theorem inner_payloads_all_forms (lu ru : Bool) {L R : List Int} (lxs rxs : List (List Int)) (hL : Sorted L) (hR : Sorted R)
+    (hlu : lu = true → L.Pairwise (· < ·)) (hru : ru = true → R.Pairwise (· < ·))
+    (hl : ∀ xs ∈ lxs, xs.length = L.length) (hr : ∀ xs ∈ rxs, xs.length = R.length) (hln : lxs ≠ []) (hrn : rxs ≠ []) :
+    ∃ lcols rcols,
+      MappedCols (encodeInner (innerJoin L R)).1 INVALID_INDEX lxs lcols ∧
+      MappedCols (encodeInner (innerJoin L R)).2 INVALID_INDEX rxs rcols ∧
+      orderedMergeInner lu ru L R (lxs.map .numeric) .none (rxs.map .numeric) .none =
+        .ok ⟨⟨some lcols, [], none⟩, ⟨some rcols, [], none⟩⟩ ∧
+      orderedMergeInner lu ru L R (lxs.map .numeric) .fields (rxs.map .numeric) .fields =
+        .ok ⟨⟨none, lcols, none⟩, ⟨none, rcols, none⟩⟩ ∧
+      orderedMergeInner lu ru L R (lxs.map .numeric) (zeroArrays (innerJoin L R).length lxs.length)
+          (rxs.map .numeric) (zeroArrays (innerJoin L R).length rxs.length) =
+        .ok ⟨⟨none, lcols, none⟩, ⟨none, rcols, none⟩⟩ := by
+  have hm := inner_lists_exactly_pairs lu ru hL hR hlu hru
+  obtain ⟨lcols, h1, h2⟩ := mapM_mapValid (encodeInner (innerJoin L R)).1 INVALID_INDEX L.length
+    (inRange_inner_left L R INVALID_INDEX) lxs hl
+  obtain ⟨rcols, h3, h4⟩ := mapM_mapValid (encodeInner (innerJoin L R)).2 INVALID_INDEX R.length
+    (inRange_inner_right L R INVALID_INDEX) rxs hr
+  have e1 : (lxs.map Payload.numeric).isEmpty = false := by
+    cases lxs with
+    | nil => exact absurd rfl hln
+    | cons x xs => rfl
+  have e2 : (rxs.map Payload.numeric).isEmpty = false := by
+    cases rxs with
+    | nil => exact absurd rfl hrn
+    | cons x xs => rfl
+  have a1 := mapM_arrays (encodeInner (innerJoin L R)).1 INVALID_INDEX lxs
+  have a2 := mapM_arrays (encodeInner (innerJoin L R)).2 INVALID_INDEX rxs
+  have l1 : (encodeInner (innerJoin L R)).1.length = (innerJoin L R).length := by simp [encodeInner]
+  have l2 : (encodeInner (innerJoin L R)).2.length = (innerJoin L R).length := by simp [encodeInner]
+  rw [l1, h1] at a1
+  rw [l2, h3] at a2
+  refine ⟨lcols, rcols, h2, h4, ?_, ?_, ?_⟩
+  · simp only [orderedMergeInner, Sinks.count, Option.any_none, Bool.false_eq_true, if_false, e1, e2, hm, mapFields, h1, h3]
+  · simp only [orderedMergeInner, Sinks.count, Option.any_none, Bool.false_eq_true, if_false, e1, e2, hm, mapFields, h1, h3]
+  · simp only [orderedMergeInner, zeroArrays, Sinks.count, Option.any_some, List.length_replicate, List.length_map,
+      bne_self_eq_false, Bool.false_eq_true, if_false, e1, e2, hm, mapFields, a1, a2]
+
+example : orderedMergeInner false false [1, 1, 2, 4, 4, 5] [1, 2, 2, 4, 6] [.numeric [11, 14, 17, 20, 23, 26]] (zeroArrays 6 1)
+    [.numeric [7, 10, 13, 16, 19]] (zeroArrays 6 1) =
+    .ok ⟨⟨none, [[11, 14, 17, 17, 20, 23]], none⟩, ⟨none, [[7, 7, 10, 13, 16, 16]], none⟩⟩ := by decide
+
 example : innerMaps false false [1, 1, 2, 4, 4, 5] [1, 2, 2, 4, 6] = .ok (encodeInner (innerJoin [1, 1, 2, 4, 4, 5] [1, 2, 2, 4, 6])) := by
   decide
 -- the swapped combination on a concrete input (duplicates on the left, right duplicate-free)
